@@ -195,7 +195,7 @@ def exp_cell(fmt, is_id, v):
         if n is not None:
             n = n()
             if not (I64_LO <= n < I64_HI):
-                return ["reject"]
+                return ["reject"] if is_id else ["text", str(n)]      # sql_int: beyond 64 bits -> text
             return ["num", n] if is_id else ["text", str(n)]
         return ["text", {"str": lambda: v[1], "date": lambda: _d(*v[1:]),
                          "dt": lambda: _dt_seconds(v) if fmt == "db" else _dt_str(v),
@@ -209,11 +209,10 @@ def has_surrogate(s):
 
 def is_k9_value(v):
     """a value the database refuses when the batch is flushed"""
-    return ((v[0] == "int" and not (I64_LO <= v[1] < I64_HI)) or (v[0] == "ref" and not (I64_LO <= v[2] < I64_HI))
-            or (v[0] == "str" and has_surrogate(v[1])))
+    return v[0] == "str" and has_surrogate(v[1])
 
 
-K9_VALUES = [["int", I64_HI], ["int", 2 ** 70], ["int", I64_LO - 1], ["str", "\ud800"], ["str", "a\udfffb"]]
+K9_VALUES = [["str", "\ud800"], ["str", "a\udfffb"], ["str", "\udc00\ud800"]]
 
 
 # ============================================================================ schema (oracle copy)
@@ -281,7 +280,7 @@ def gen_recipe_case(rng, big_count=None, outputs=None, k9=False):
     outputs = outputs or rng.choice(OUTPUT_SETS)
     sqlish = any(o in ("db", "sql") for o in outputs)
     nvalues = rng.randint(3, 10)
-    values = [gen_value(rng, allow_k9=(not sqlish)) for _ in range(nvalues)]
+    values = [gen_value(rng, allow_k9=True) for _ in range(nvalues)]
     if k9:
         values[rng.randrange(nvalues)] = rng.choice(K9_VALUES)
     ntab = rng.randint(1, 4)
@@ -373,9 +372,9 @@ def gen_direct_case(rng, k9=False):
         for name, _ in t["fields"]:
             if rng.random() < 0.1 and ids:
                 tt = rng.choice(sorted(ids))
-                row.append([name, ["ref", tt, rng.randint(1, max(1, ids[tt]))]])
+                row.append([name, ["ref", tt, rng.choice([rng.randint(1, max(1, ids[tt])), 2 ** 70, I64_HI, I64_LO - 1])]])
             else:
-                row.append([name, gen_value(rng, allow_k9=not sqlish)])
+                row.append([name, gen_value(rng, allow_k9=True)])
         rows.append([t["table"], row])
     # ids as a continued run / forward references produce them: not starting at 1, not in write order
     if rng.random() < 0.6:
@@ -731,8 +730,6 @@ def compare_row(fmt, table, raw, got, ti):
         if k not in gotd:
             return "cell: %s output, table %s: field %s of a row has no column" % (fmt, table, k)
         e = exp_cell(fmt, k == "id", v)
-        if e == ["reject"] and v[0] in ("int", "ref") and gotd[k] == ["text", str(v[1] if v[0] == "int" else v[2])]:
-            continue    # a database that keeps the digits as text has lost nothing
         if e is not None and gotd[k] != e:
             return "cell: %s output, table %s field %s: value %r was written as %r, expected %r" % (fmt, table, k, v, gotd[k], e)
     empty = ["text", ""] if fmt == "csv" else ["null"]
